@@ -505,6 +505,7 @@ func (w *world) reopenReplica(rep *replica) {
 	if !eqStr(before, after) || rootBefore != rep.tree.Root().Id || !eqStr(headsBefore, sortedCopy(rep.tree.Heads())) {
 		w.violate("C06", "reopen.iter", fmt.Sprintf("rep%d presented %s (root %s heads %s) before close and %s (root %s heads %s) after reopen", rep.idx, join(before), rootBefore, join(headsBefore), join(after), rep.tree.Root().Id, join(sortedCopy(rep.tree.Heads()))))
 	}
+	w.corrRebuild(rep)
 	w.checkReplica(rep, "reopen")
 }
 
